@@ -14,6 +14,10 @@ func (e *Executor) areTaskRequiredVarsSet(t *ast.Task) error {
 
 	var missingVars []errors.MissingVar
 	for _, requiredVar := range t.Requires.Vars {
+		// a null entry in the YAML list (`requires: {vars: [~]}`) decodes to a nil pointer
+		if requiredVar == nil {
+			continue
+		}
 		_, ok := t.Vars.Get(requiredVar.Name)
 		if !ok {
 			missingVars = append(missingVars, errors.MissingVar{
@@ -40,6 +44,9 @@ func (e *Executor) areTaskRequiredVarsAllowedValuesSet(t *ast.Task) error {
 
 	var notAllowedValuesVars []errors.NotAllowedVar
 	for _, requiredVar := range t.Requires.Vars {
+		if requiredVar == nil {
+			continue
+		}
 		varValue, _ := t.Vars.Get(requiredVar.Name)
 
 		value, isString := varValue.Value.(string)
